@@ -2,9 +2,9 @@
    Statements only; every proof is `exact <lemma>`; assumptions are printed.
    dec_update is the REPAIRED generation of the decoder (Model_Update, fixed = true: proposed repairs R1-R6),
    dec_update_pinned / merge_pinned the pinned tree.  Spec_Wire is the RFC reference.
-   Proved for ALL byte strings: agreement with the reference on the whole UPDATE body for sessions of the unicast,
-   multicast and labelled IP families (C02_agrees_with_reference), End-of-RIB recognition, the RFC 6793 merge.
-   The mpls-vpn families (route distinguisher in the next hop) and the five abstracted attribute types are tied by
+   Proved for ALL byte strings: agreement with the reference on the whole UPDATE body for sessions of the eight IP
+   families, mpls-vpn included (C02_agrees_with_reference), End-of-RIB recognition, the RFC 6793 merge, Adj-RIB-In.
+   The five abstracted attribute types are tied by
    the correspondence (harness/c02.py: implementation = model = Spec_Wire.ref_update evaluated in Coq = content
    owned by the generator); the syntax of one prefix NLRI is C15. *)
 From Coq Require Import ZArith Bool List.
@@ -28,7 +28,8 @@ Theorem C02_agrees_with_reference_attributes : forall opq s other ab l,
 Proof. exact attributes_agree. Qed.
 
 (* ---- agreement with the reference decoder, WHOLE UPDATE BODY.
-   s: any session whose negotiated families are among ipv4/ipv6 unicast, multicast, nlri-mpls (plain_sess), with or
+   s: any session whose negotiated families are among the eight IP families ipv4/ipv6 unicast, multicast, nlri-mpls,
+   mpls-vpn (ip_sess), with or
    without ADD-PATH per family, 2- or 4-octet AS numbers, with or without the RFC 8950 extended next hop per family;
    b: any byte string of bytes; no attribute of its block is one of the five abstracted types PMSI, TUNNEL_ENCAP, AIGP,
    BGP-LS, PREFIX_SID (modelled); the reference decoder (RFC 4271 4.3 sections and TLVs, RFC 7606 well-formedness of
@@ -38,7 +39,7 @@ Proof. exact attributes_agree. Qed.
    the same announced routes each with the same next hop, the same withdrawn routes, and the same attribute list
    (AS_PATH / AS4_PATH merged, MP attributes consumed) - lists equal element by element, in order. *)
 Theorem C02_agrees_with_reference : forall opq s other b r,
-  plain_sess s -> wfb b ->
+  ip_sess s -> wfb b ->
   (forall wb ab nb l, sections b = Some (wb, ab, nb) -> tlvs (length ab) ab = Some l -> forallb modelled l = true) ->
   ref_update_gen unpack_nlri other (rs_of s) b = Some r ->
   match r with
@@ -63,7 +64,7 @@ Proof. exact ribin_apply_map. Qed.
 (* composed with C02_agrees_with_reference: after a well-formed UPDATE the table holds exactly the reference's
    routes, next hops and attribute list *)
 Theorem C02_ribin_reference : forall opq s other b u,
-  plain_sess s -> wfb b ->
+  ip_sess s -> wfb b ->
   (forall wb ab nb l, sections b = Some (wb, ab, nb) -> tlvs (length ab) ab = Some l -> forallb modelled l = true) ->
   ref_update_gen unpack_nlri other (rs_of s) b = Some (RUpdate u) ->
   exists u', dec_update opq s b = Decoded u' /\ map entry_of (u_attrs u') = ru_attrs u
